@@ -3,7 +3,9 @@ package exec
 import (
 	runewidth "github.com/mattn/go-runewidth"
 	"encoding/json"
+	"errors"
 	"fmt"
+	"io"
 	"strings"
 
 	"gosym/smt"
@@ -147,12 +149,52 @@ func (in *Interp) installStubs8() {
 		if _, ok := r.V.(Ptr); ok && r.T != nil && r.T.String() == "*strings.Reader" {
 			return prev(in, a)
 		}
-		// any other reader: drain it through its own (interpreted) Read method; the decoder
-		// then works on the whole content (its buffering behaviour is not modelled)
-		content := in.drainReader(r)
-		return in.newNative(&jsonDecModel{dec: json.NewDecoder(strings.NewReader(content)), src: content})
+		// any other reader: the real decoder runs natively over an adapter whose Read calls
+		// the reader's own (interpreted) Read method with a buffer of the same size, so the
+		// decoder's read-ahead is exactly the real one (tee buffers see what they would see)
+		return in.newNative(&jsonDecModel{dec: json.NewDecoder(&interpReader{in: in, r: r})})
 	}
 	_ = smt.Bool
+}
+
+// interpReader: a host io.Reader over an interpreted reader value.
+type interpReader struct {
+	in *Interp
+	r  Iface
+}
+
+func (ir *interpReader) Read(p []byte) (int, error) {
+	in := ir.in
+	if ir.r.T == nil {
+		in.panicf("nil io.Reader")
+	}
+	sel := in.Prog.MethodSets.MethodSet(ir.r.T).Lookup(nil, "Read")
+	if sel == nil {
+		abortf("unsupported: reader %v has no Read method", ir.r.T)
+	}
+	buf := in.byteSlice(make([]byte, len(p)))
+	res := in.callFunction(in.Prog.MethodValue(sel), []Value{ir.r.V, buf}).(Tuple)
+	n := in.concIntC(res[0])
+	for i := 0; i < n; i++ {
+		t := buf.Arr.Cells[i].(*smt.Term)
+		if !t.IsConst() {
+			t = in.Ctx.Concretize(t)
+		}
+		p[i] = byte(t.Val.Uint64())
+	}
+	if e := res[1].(Iface); e.T != nil {
+		if in.sameValue(e, in.ioEOF()).IsTrue() {
+			return n, io.EOF
+		}
+		msg := "read error"
+		if sel := in.Prog.MethodSets.MethodSet(e.T).Lookup(nil, "Error"); sel != nil {
+			if m, ok := in.callFunction(in.Prog.MethodValue(sel), []Value{e.V}).(Str); ok {
+				msg = in.opaqueStr(m)
+			}
+		}
+		return n, errors.New(msg)
+	}
+	return n, nil
 }
 
 // drainReader reads an io.Reader value to EOF through its interpreted Read method and
